@@ -77,6 +77,15 @@ Theorem c07_run_projection : forall (aok : ck -> bool) (acts : list act) (l : li
 Proof. exact run_projection. Qed.
 Print Assumptions c07_run_projection.
 
+(* "for all provider behaviours": a provider is an unbounded sequence of answers; the run never looks
+   beyond answer number MAX_TOOL_CALLS (every continued round spends tool-call budget), so quantifying
+   over finite lists of answers loses nothing *)
+Theorem c07_provider_prefix_suffices : forall (g : cfg) (sid : N) (link : option N) (aok : ck -> bool) (cok : bool) (reqs extra : list req_out),
+  (N.to_nat MAX_TOOL_CALLS < length reqs)%nat ->
+  run_session g sid link aok (IPrompt cok (reqs ++ extra)) = run_session g sid link aok (IPrompt cok reqs).
+Proof. exact run_session_prefix. Qed.
+Print Assumptions c07_provider_prefix_suffices.
+
 (* AppendOk cannot be dropped: `let _ = continuities.append_run_ended(..)` (session.rs:308-317) — when that
    append fails the run stays spawned-but-never-ended on the thread and nobody is told *)
 Theorem c07_end_dropped_when_append_fails_refuted :
